@@ -26,6 +26,12 @@ func main() {
 			gen(g, mspace(g), triTemplates(K(g), kTriL))
 		}},
 		vlib.Group{Name: "cdense", Gen: func(g *vlib.G) { genCDense(g, mspace(g)) }},
+		// dst of the ...To methods of the factorization / structured types.
+		vlib.Group{Name: "to", Gen: func(g *vlib.G) {
+			gen(g, vecSpace(g.Seed, g.Thorough()), toVecTemplates())
+			gen(g, mspace(g), toDenseTemplates())
+			gen(g, mspace(g), toExtractTemplates())
+		}},
 		// The receiver itself as one operand, every window as the other.
 		vlib.Group{Name: "selfop", Gen: func(g *vlib.G) {
 			gen(g, vecSpace(g.Seed, g.Thorough()), vecSelfOpTemplates(4))
